@@ -23,7 +23,62 @@ func aclRedirects() map[string]string {
 	return map[string]string{"net.SplitHostPort": r + "VSplitHostPort", "net.ParseIP": r + "VParseIP", "net.ParseCIDR": r + "VParseCIDR"}
 }
 
+func merge(a, b map[string]string) map[string]string {
+	out := map[string]string{}
+	for k, v := range a {
+		out[k] = v
+	}
+	for k, v := range b {
+		out[k] = v
+	}
+	return out
+}
+
 func init() {
+	reg(&Property{
+		ID: "C05",
+		Instances: func(tier string) []Instance {
+			out := []Instance{
+				inst("internal/receiver", "HConfine", "n", 1),
+				inst("rsyncd", "HUploadSubdir", "n", 2),
+				inst("rsyncd", "HUploadSubdir", "n", 3),
+			}
+			if tier == "thorough" {
+				out = append(out, inst("internal/receiver", "HConfine", "n", 2), inst("rsyncd", "HUploadSubdir", "n", 4), inst("rsyncd", "HUploadSubdir", "n", 5))
+			}
+			return out
+		},
+		MustReach: []string{"done", "transferred"},
+		Redirects: sym.VfsRedirects(),
+		Bounds:    "hostile list: '.' plus one entry whose name is an arbitrary string of n bytes (every value, so '..', '/', '.', 'a/' ... at n<=2), any of the 7 types, arbitrary metadata and 2-byte link target, decoded by the real ReceiveFileList (incl. filepath.Clean) and then processed by delete pass, generator, receiver and touch-up under every subset of --delete -l -p -D(--devices/--specials) -t -o; daemon upload: arbitrary sub-directory argument of n bytes. Obligation: every file-system effect goes through the destination root handle (no ambient path call except MkdirAll/OpenRoot on the configured destination), descriptor-relative calls use a plain base name, no mutating event outside the destination in the model",
+		Outside:   "confinement of path resolution below a root handle is os.Root's contract (Go standard library + kernel): trusted, modelled as 'names that escape are rejected'; symlinked directories inside the destination; Landlock",
+		Assumptions: []string{"os.Root confines path resolution beneath its directory (trusted)"},
+	})
+	reg(&Property{
+		ID: "C06",
+		Instances: func(tier string) []Instance {
+			out := []Instance{inst("rsyncd", "HDisclose", "n", 0), inst("rsyncd", "HDisclose", "n", 1), inst("rsyncd", "HDisclose", "n", 2)}
+			if tier == "thorough" {
+				out = append(out, inst("rsyncd", "HDisclose", "n", 3), inst("rsyncd", "HDisclose", "n", 4))
+			}
+			return out
+		},
+		MustReach: []string{"done"},
+		Redirects: sym.VfsRedirects(),
+		Bounds:    "daemon text protocol, two directory modules whose names are prefixes of one another ('m', 'mm'), request path = module name + n arbitrary non-blank bytes ('/..', '/.', '//', ...), options -r, -l, -c symbolic; module tree with a file and a symlink pointing outside; obligation: every object the sender stats/opens/reads/lists lies inside the requested module's directory and the only ambient call is OpenRoot(module path)",
+		Outside:   "os.Root / fs.ValidPath path confinement (trusted: escaping names are rejected by the model); fs.FS-backed modules (served from the caller's fs.FS, which the model does not look into); request tails longer than n bytes",
+		Assumptions: []string{"os.Root confines path resolution beneath its directory (trusted)"},
+	})
+	reg(&Property{
+		ID: "C07",
+		Instances: func(tier string) []Instance {
+			return []Instance{inst("rsyncd", "HReadOnly"), inst("rsyncd", "HValidateModule")}
+		},
+		MustReach: []string{"refused", "writable", "accepted", "rejected"},
+		Redirects: sym.VfsRedirects(),
+		Bounds:    "daemon text protocol end to end (greeting, module line, the argument lines a real client builds, empty upload): modules read-only directory / writable directory / fs.FS-backed, every subset of -r --delete -n -p -t, with and without a sub-directory target; obligation: not writable => no file-system event of any kind (not even MkdirAll/OpenRoot on the module path), error returned and an error frame naming the reason sent; NewServer rejects writable fs.FS modules",
+		Outside:   "option sets beyond the listed flags; hostile (non-empty) uploads into a read-only module are refused before the file list is read, so their content does not matter",
+	})
 	reg(&Property{
 		ID: "C19",
 		Instances: func(tier string) []Instance {
